@@ -28,7 +28,7 @@ def observe(cfg):
     """returns (list of step records, list of failures of the interleaving oracle)"""
     jax, jnp, np, eqx, jinns = jx()
     import jinns.solver._rar as R
-    loss, P = problem(cfg["kind"], cfg.get("dim", 2))
+    loss, P = problem(cfg["kind"], cfg.get("dim", 2), cfg.get("vec", False), cfg.get("system", False))
     g = generator(cfg["kind"], cfg)
     g, st, sf = R.init_rar(g)
     steps, fails = [], []
@@ -59,7 +59,40 @@ def observe(cfg):
                 continue
             rec = R._VERIF_SINK[0]
             steps.append(dict(i=i, before=b1, after=b2, rec=[np.asarray(a).tolist() for a in rec[1:]], rkind=rec[0]))
+            fails += residual_oracle(cfg, i, loss, P, rec)
     return steps, fails
+
+
+def residual_oracle(cfg, i, loss, P, rec):
+    """the numbers the step ranks by are the squared residuals of the current network at the candidates
+    (sum of the squared components for a residual with several components), recomputed here point by point"""
+    jax, jnp, np, eqx, jinns = jx()
+    kind = cfg["kind"]
+    if cfg.get("system"):        # a system of equations: the squared residuals of the equations add up
+        sysloss = loss
+        ev = lambda *a: jnp.concatenate([jnp.atleast_1d(d.evaluate(*a[:-2], sysloss.u_dict, a[-1])).ravel() for d in sysloss.dynamic_loss_dict.values()])
+        loss = type("L", (), {"u": None})()
+    else:
+        ev = loss.dynamic_loss.evaluate
+    sq = lambda r: float(np.sum(np.asarray(r, dtype=float).ravel() ** 2))
+    close = lambda a, b: abs(a - b) <= 1e-9 * max(1.0, abs(a), abs(b))
+    if kind in ("ode", "statio"):
+        cand, mse = np.asarray(rec[1]), np.asarray(rec[2]).ravel()
+        cand = cand[:, None] if cand.ndim == 1 else cand
+        want = [sq(ev(jnp.asarray(c), loss.u, P)) for c in cand]
+        bad = [k for k, (a, b) in enumerate(zip(mse.tolist(), want)) if not close(a, b)]
+        if bad:
+            k = bad[0]
+            return [f"step at {i}: candidate {cand[k].tolist()} is ranked by {mse[k]}, its squared residual is {want[k]}"]
+        return []
+    ct, cx, M = np.asarray(rec[1]), np.asarray(rec[2]), np.asarray(rec[3])
+    ct = ct[:, None] if ct.ndim == 1 else ct
+    for a in range(ct.shape[0]):
+        for b in range(cx.shape[0]):
+            w = sq(ev(jnp.asarray(ct[a]), jnp.asarray(cx[b]), loss.u, P))
+            if not close(float(M[a, b]), w):
+                return [f"step at {i}: pair (t={ct[a].tolist()}, x={cx[b].tolist()}) is ranked by {M[a, b]}, its squared residual is {w}"]
+    return []
 
 
 def step_oracle(cfg, s):
@@ -160,6 +193,10 @@ def generate(tier, seed, casedir, variant):
                 cfg["reinit_at"] = rng.randint(2, 4)
             if kind != "statio":
                 cfg["tmin"] = [0.0, 0.5, -1.0, 2.0][j % 4]       # time domains that do not start at 0
+            if kind != "nonstatio" and j % 2 == 1:
+                cfg["vec"] = True                                 # residual with two components
+            if j % 5 == 2 or (kind == "nonstatio" and j % 5 == 4):
+                cfg["system"] = True; cfg.pop("vec", None)        # a system loss: two unknowns, two equations
             nruns += 1
             try:
                 steps, fails = observe(cfg)
@@ -173,6 +210,10 @@ def generate(tier, seed, casedir, variant):
                 for f in step_oracle(cfg, s):
                     viol.append({"detail": f, "case": dict(cfg, step_at=s["i"])})
                 dist[kind] = dist.get(kind, 0) + 1
+                if cfg.get("system"):
+                    dist["system_loss"] = dist.get("system_loss", 0) + 1
+                if cfg.get("vec"):
+                    dist["vector_residual"] = dist.get("vector_residual", 0) + 1
                 if kind == "nonstatio" and cfg["nt_start"] != cfg["n_start"]:
                     dist["unequal_starts"] = dist.get("unequal_starts", 0) + 1
                 nontrivial.add((kind, cfg["seed"], s["i"]))
